@@ -520,7 +520,8 @@ func (s *stickyBalanceStrategy) performReassignments(reassignablePartitions []to
 				Logger.Printf("Expected topic %s partition %d to be assigned to a consumer", partition.Topic, partition.Partition)
 			}
 
-			if _, exists := prevAssignment[partition]; exists {
+			// move the partition back to its previous owner only if that member still subscribes to the topic
+			if prev, exists := prevAssignment[partition]; exists && memberAssignmentsIncludeTopicPartition(consumer2AllPotentialPartitions[prev.MemberID], partition) {
 				if len(currentAssignment[consumer]) > (len(currentAssignment[prevAssignment[partition].MemberID]) + 1) {
 					sortedCurrentSubscriptions = s.reassignPartition(partition, currentAssignment, sortedCurrentSubscriptions, currentPartitionConsumer, prevAssignment[partition].MemberID)
 					reassignmentPerformed = true
